@@ -377,7 +377,7 @@ def c01(tier, replay=None):
 
 
 # ------------------------------------------------------------------------------------------------ C12
-DEFECTS = ["missing_value", "missing_value_loop", "missing_value_table", "dup_scalar", "dup_scalar_case", "dup_loop_stored", "dup_loop_header", "dup_loop_header_case", "dup_loop_only", "dup_loop_twice",
+DEFECTS = ["missing_value", "missing_value_loop", "missing_value_table", "dup_scalar", "dup_scalar_case", "dup_loop_stored", "dup_loop_header", "dup_loop_header_case", "dup_loop_only", "dup_loop_twice", "dup_scalar_of_loop", "dup_scalar_of_loop1",
            "dup_block", "dup_frame", "partial_packet", "null_loop", "null_loop_loop", "empty_loop", "missing_endquote", "missing_endquote_dq",
            "unclosed_text", "unclosed_triple", "missing_space_qq", "missing_space_qname", "missing_space_list", "stray_cbracket", "stray_cbrace",
            "missing_cbracket", "missing_cbrace", "missing_key", "missing_key_bare", "null_key", "unquoted_key", "unquoted_key_sp", "unquoted_key_eol", "unquoted_key_q", "null_key_sp", "missing_key_only", "text_key", "reserved_data",
